@@ -154,9 +154,9 @@ class C05(Prop):
         """-> (statements, statements with un-recasable keywords turned into value words)"""
         out = []
         for i, b in enumerate(case["blocks"]):
-            ss = universe.statements(b, i)
-            if b["k"] == "set" and not case.get("_no_carve"):
-                ss = [render_script([s], None).rstrip("\n") for s in ss]  # K19: one line, verbatim
+            ss = universe.statements(b, i, set_tokens=bool(case.get("_no_carve")))
+            if b["k"] == "set":
+                pass  # K19: one line, verbatim (tokens only in the replay of K19)
             elif b["k"] not in CASE_KINDS or (b["k"] == "decl"):
                 ss = [[(t, "V" if r == "K" else r) for t, r in s] for s in ss]
             out.extend(ss)
